@@ -16,7 +16,7 @@ From Coq Require Import List NArith Permutation.
 From Astisub Require Import Kit.Base Kit.GoMap Model.Srt Model.Vtt Proofs.VttIOProofs.
 From Astisub Require Import Model.Ssa Proofs.SsaOrder.
 From Astisub Require Import Model.Stl Proofs.StlClock.
-From Astisub Require Import Model.Ttml Proofs.TtmlIO.
+From Astisub Require Import Model.Ttml Proofs.TtmlIO Model.TtmlGo Proofs.TtmlGoProofs.
 Import ListNotations.
 
 Theorem C19_sorted_range_independent : forall (V A : Type) (m : list (N * V)) (order order' : list N)
@@ -56,8 +56,8 @@ Print Assumptions C19_stl_clock_only_in_dates.
    not depend on the order in which they are listed (keys distinct, as in a Go map) *)
 Theorem C19_ttml_deterministic : forall ind meta items st st' rg rg',
   Permutation st st' -> Permutation rg rg' -> NoDup (map fst st) -> NoDup (map fst rg) ->
-  write_ttml_bytes ind (mkDoc meta st rg items) = write_ttml_bytes ind (mkDoc meta st' rg' items).
-Proof. exact write_ttml_bytes_perm. Qed.
+  write_ttml_bytes_go ind (mkDoc meta st rg items) = write_ttml_bytes_go ind (mkDoc meta st' rg' items).
+Proof. exact write_ttml_bytes_go_perm. Qed.
 
 Example C19_example : nsort [3; 1; 2]%N = nsort [2; 3; 1]%N. Proof. reflexivity. Qed.
 
